@@ -101,6 +101,7 @@ fn base(rng: &mut Rng, thorough: bool) -> Knobs {
         extra_clone_p: 2 + rng.below(3) as u32,
         consuming_on_adopted: false,
         drain_consuming: false,
+        uninit_p: 0,
         dtor_downgrade_p: 0,
     }
 }
@@ -155,6 +156,9 @@ fn with_weak(rng: &mut Rng, kn: &mut Knobs, heavy: bool) {
     set_w(kn, K::WeakClone, 2 * f);
     set_w(kn, K::WeakDrop, 3 * f);
     set_w(kn, K::StoreWeak, 2 * f);
+    if rng.chance(1, 2) {
+        set_w(kn, K::WeakRaw, 2 * f);
+    }
 }
 
 fn with_selfsame(rng: &mut Rng, kn: &mut Knobs) {
@@ -435,6 +439,12 @@ pub fn knobs(profile: &str, thorough: bool, rng: &mut Rng) -> Knobs {
             kn.walk_len += 10;
         }
         _ => {}
+    }
+    // two-phase construction (new_uninit ... assume_init) in a share of the runs; C09
+    // compares layouts of one explicit history, C16 enumerates scenarios on one: both
+    // replay whatever was generated
+    if matches!(profile, "C01" | "C02" | "C03" | "C04" | "C05" | "C06" | "C08" | "C09" | "C12" | "C14") && rng.chance(1, 6) {
+        kn.uninit_p = 1 + rng.below(8) as u32;
     }
     kn
 }
